@@ -311,7 +311,7 @@ func (i *c02Inst) Key() string {
 	if i.doc == nil {
 		return "init"
 	}
-	return i.origin + "|" + i.doc.VerifRelDump() + "|" + strings.Join(i.doc.VerifPartNames(), ",") + fmt.Sprintf("|n%d r%d t%d p%d", len(i.doc.Body.Elements), i.reop, i.rend, i.nph) + "|" + document.VerifGlobalsDump()
+	return i.origin + "|" + i.doc.VerifRelDump() + "|" + strings.Join(i.doc.VerifPartNames(), ",") + fmt.Sprintf("|n%d r%d t%d p%d", len(i.doc.Body.Elements), i.reop, i.rend, i.nph) + "|" + i.doc.VerifNotesDump()
 }
 
 func (i *c02Inst) Deep() []rep.Violation {
